@@ -169,6 +169,10 @@ class Peer(object):
         delay = float(att.get('delay', 0.001))
         act = att['act']
         bcast = bool(self.scn['client'].get('kwargs', {}).get('broadcast_enable')) and op.get('unit', 1) == 0
+        if self.scn['client'].get('kwargs', {}).get('handle_local_echo'):
+            # RS-485 adaptor with local echo: every transmitted byte comes straight back
+            self.send(0.0, raw)
+            self.k.count('local_echo')
         if bcast:
             return                  # a conformant server never answers a broadcast
         if act == 'reply' or act == 'exception':
